@@ -65,11 +65,14 @@ for i, t in enumerate(TABLE):
             if _p is not None:
                 nm += '@shape%d' % _p; grp += '_s%d' % _p
                 c2['bounded'] = 'strides / index lists fixed to concrete shape %d of 4 (all operand values symbolic)' % _p
-                if not _ALL and _p in (2, 4): c2['tier'] = 'thorough'
+                if not _ALL and _p != 1: c2['tier'] = 'thorough'
             if _l is not None:
                 nm += '@lane%d' % _l; c2['harness'] = 'h_%s_l%d' % (t['uid'], _l)
                 c2['note'] = 'element %d of %d (the other lanes of every kernel result unconstrained)' % (_l, t['W'])
                 if not _ALL and _l not in (0, t['W'] - 1): c2['tier'] = 'thorough'
+            if t['ext_mul'] and t['name'].endswith('_batch'):
+                c2['timeout'] = 1500; c2['note'] = 'scalar-loop ext*ext: all four elements in one query (no lane to key on), about 5 min'
+                if not _ALL: c2['tier'] = 'thorough'
             UNITS.append(Unit(nm, grp, t['uid'], **c2))
 TRUSTED_BASE = ['the reading of each definition head (props/C16/gen.py: operand arities from the name, result / operands / strides by parameter type and name) - validated by the proofs: a wrong reading fails on the unchanged tree',
                 'caller-facing contracts of the scalar add / sub / mul and of add_avx / sub_avx / mult_avx (and AVX-512 twins), lane-wise, over uninterpreted addmod / submod / mulmod (enforced in C01, C02, C11)',
@@ -80,7 +83,7 @@ EXPLANATION = ('%d routines (add / sub / mul families and the 3 planar<->interle
                'four concrete stride / index shapes (bounded in that dimension: coverage.bounded).' % len(TABLE))
 MANIFEST_ENTRY = dict(category='proof', technique='generated CBMC code contracts (one per routine, from the definition heads) over uninterpreted field operations, exact-extent operands and exact assigns sets; Lean lemma for the Karatsuba form',
     text='%d batched / AVX2 / AVX-512 cubic-extension routines: element k, coefficient i of the result = the scalar extension operation on the k-th operands; frames exact.' % len(TABLE),
-    note='strides / index lists: 4 concrete shapes (bounded); aliasing of result and operands not covered.')
+    note='quick tier: stride-free routines + shape 1, first and last element of the one-lane units; thorough: 4 concrete shapes (bounded), every element, the seven scalar-loop ext*ext routines; aliasing of result and operands not covered; strides < 2^20.')
 
 LEMMAS = ['cubic_mul', 'cubic_mul_r1', 'cubic_mul_base']
 def extra_checks(rn, tier, ginfos):
